@@ -377,9 +377,14 @@ pub fn decode_full_report(payload: &[u8]) -> Result<([[u8; 32]; 3], &[u8]), Repo
         report_context[idx] = context;
     }
 
-    // Decode the offset for the bytes reportBlob data
+    // Decode the offset for the bytes reportBlob data.
+    // The offset is a 256-bit big-endian word: anything above the low 8 bytes cannot
+    // address a position inside `payload`.
+    if payload[96..128][..24].iter().any(|byte| *byte != 0) {
+        return Err(ReportError::InvalidLength("offset"));
+    }
     let offset = usize::from_be_bytes(
-        payload[96..128][24..Report::WORD_SIZE] // Offset value is stored as Little Endian
+        payload[96..128][24..Report::WORD_SIZE]
             .try_into()
             .map_err(|_| ReportError::ParseError("offset as usize"))?,
     );
@@ -397,9 +402,12 @@ pub fn decode_full_report(payload: &[u8]) -> Result<([[u8; 32]; 3], &[u8]), Repo
         return Err(ReportError::InvalidLength("length word out of range"));
     }
 
-    // Decode the length of the bytes reportBlob data
+    // Decode the length of the bytes reportBlob data (a 256-bit big-endian word as well).
+    if payload[offset..length_end][..24].iter().any(|byte| *byte != 0) {
+        return Err(ReportError::InvalidLength("bytes data"));
+    }
     let length = usize::from_be_bytes(
-        payload[offset..length_end][24..Report::WORD_SIZE] // Length value is stored as Little Endian
+        payload[offset..length_end][24..Report::WORD_SIZE]
             .try_into()
             .map_err(|_| ReportError::ParseError("length as usize"))?,
     );
